@@ -84,6 +84,8 @@ var redos = []string{"same", "delete-page", "delete-others", "delete-all", "garb
 
 // ---- special values that vals cannot describe
 
+type qtyKey int
+
 type cyc struct {
 	Name string
 	Next *cyc
@@ -237,6 +239,24 @@ func special(name string) any {
 		return &withPriv{Name: "n", priv: "p"}
 	case "map-int-keys":
 		return map[int]string{1: "a", 2: "b"}
+	case "map-uint8-keys":
+		return map[uint8]string{0: "z", 1: "a", 255: "m"}
+	case "map-uint-keys":
+		return map[uint]any{0: "z", 1: map[uint16]int{1: 2}}
+	case "map-uint64-keys":
+		return map[uint64]string{1: "a", 1 << 63: "big"}
+	case "map-uintptr-keys":
+		return map[uintptr]string{1: "a"}
+	case "map-int8-keys":
+		return map[int8]string{-1: "n", 1: "a", 127: "m"}
+	case "map-named-int-keys":
+		return map[qtyKey]string{1: "a", 0: "z"}
+	case "map-bool-keys":
+		return map[bool]string{true: "t", false: "f"}
+	case "map-float-keys":
+		return map[float64]string{1: "a", 1.5: "b"}
+	case "map-rune-byte-keys":
+		return map[string]any{"r": map[rune]string{'1': "one", 1: "ctl"}, "b": map[byte]int{1: 1}, "1": map[uint32]string{1: "x"}}
 	case "map-struct-keys":
 		return map[struct{ A int }]string{{1}: "a"}
 	case "map-any-keys":
@@ -282,7 +302,7 @@ func special(name string) any {
 // Not in the domain: a map[string]any or []any that contains ITSELF. Printing such a value
 // overflows the stack inside the standard library's fmt (as in any Go program); pointer cycles
 // between structs - the realistic shape of cyclic data - are covered.
-var specials = []string{"cyclic-ptr", "cyclic-2", "cyclic-in-map", "cyclic-via-value-field", "cyclic-via-value-slice", "cyclic-via-interface", "cyclic-via-embedded", "cyclic-via-map-of-ptr", "cyclic-via-array", "cyclic-value-root", "embedded-nil-ptr", "embedded-nil-ptr-ptr", "slice-of-embedded-nil-ptr", "map-of-embedded-nil-ptr", "wrapped-embedded-nil-ptr", "panicking-stringer", "nil-url", "nil-valrecv-stringer", "slice-with-nil-stringer", "map-with-nil-stringers", "unexported", "unexported-ptr", "map-int-keys", "map-struct-keys", "map-any-keys", "func", "chan", "stringer", "typed-nil-ptr", "typed-nil-map", "typed-nil-slice", "nested-ptr", "array-of-struct", "slice-of-nil", "big-uint", "complex", "bytes", "error", "deep"}
+var specials = []string{"cyclic-ptr", "cyclic-2", "cyclic-in-map", "cyclic-via-value-field", "cyclic-via-value-slice", "cyclic-via-interface", "cyclic-via-embedded", "cyclic-via-map-of-ptr", "cyclic-via-array", "cyclic-value-root", "embedded-nil-ptr", "embedded-nil-ptr-ptr", "slice-of-embedded-nil-ptr", "map-of-embedded-nil-ptr", "wrapped-embedded-nil-ptr", "panicking-stringer", "nil-url", "nil-valrecv-stringer", "slice-with-nil-stringer", "map-with-nil-stringers", "unexported", "unexported-ptr", "map-int-keys", "map-uint8-keys", "map-uint-keys", "map-uint64-keys", "map-uintptr-keys", "map-int8-keys", "map-named-int-keys", "map-bool-keys", "map-float-keys", "map-rune-byte-keys", "map-struct-keys", "map-any-keys", "func", "chan", "stringer", "typed-nil-ptr", "typed-nil-map", "typed-nil-slice", "nested-ptr", "array-of-struct", "slice-of-nil", "big-uint", "complex", "bytes", "error", "deep"}
 
 func dataOf(c Case) any {
 	m := map[string]any{}
@@ -488,6 +508,8 @@ var positions = []string{
 	`<p>{{ v | shout }}</p>`,
 	`<p>{{ v | isBig }}</p>`,
 	`<p>{{ v.a.b }} {{ v[0] }} {{ v.0 }} {{ v['k'] }} {{ v.Name }} {{ v.Next.Next.Name }} {{ v.priv }} {{ v.in.Name }} {{ v.1 }} {{ v.self.self.name }}</p>`,
+	// numeric and odd steps into maps with integer / unsigned / bool / float key types
+	`<p>{{ v.1 }} {{ v[1] }} {{ v.0 }} {{ v.255 }} {{ v.256 }} {{ v.300 }} {{ v.-1 }} {{ v[-1] }} {{ v.1.1 }} {{ v.r.1 }} {{ v.b.1 }} {{ v.true }} {{ v.9223372036854775808 }} {{ v.18446744073709551616 }} {{ v.1e3 }} {{ v.x }}</p><i v-if="v[1]" :title="v[1]">x</i><b v-for="(k, e) in v">{{ k }}{{ e }}</b>`,
 	`<p>{{ v + 1 }} {{ v == 1 }} {{ v ? 'a' : 'b' }} {{ v && true }} {{ v * 2 }} {{ v % 2 }} {{ v < 3 }}</p>`,
 	`<template include="c.vuego" :p="v" q="{{ v }}"></template>`,
 	`<template :x="v"><p>{{ x }}</p></template><template v-if="v"><p>t</p></template>`,
